@@ -51,7 +51,7 @@ def run(ctx):
         I = Interp(repo)
         try:
             I.call_function(f, [Opaque("nodes"), [1], ["x"]], self_obj=obj)
-        except (XRaise, Uninterpretable) as e:
+        except XRaise as e:
             r1.fail(f.qualname, f"dim{dim}", f.file, f.lineno, mname, f"mesh.dim = {dim}: {e}")
             continue
         v = cap.get("vals")
@@ -96,7 +96,7 @@ def run(ctx):
             values = [XArray((2,), fm)]
         try:
             vals, dofs, used = I.call_function(fI, [1, Opaque("pt"), nodes_arg, values, ["y"]], self_obj=obj)
-        except (XRaise, Uninterpretable) as e:
+        except XRaise as e:
             r2.fail(fI.qualname, kind, fI.file, fI.lineno, "__Bc_Integration_Dim", f"{kind} load: {e}")
             continue
         vals, dofs = XArray.from_nested(vals), XArray.from_nested(dofs)
@@ -155,7 +155,7 @@ def run(ctx):
             r5.ok("point load: sum over nodes == prescribed total")
         else:
             r5.fail(fP.qualname, "split", fP.file, fP.lineno, "__Bc_pointLoad", f"the nodal values sum to {tot!r}, not to the prescribed total F")
-    except (XRaise, Uninterpretable) as e:
+    except XRaise as e:
         r5.fail(fP.qualname, "split", fP.file, fP.lineno, "__Bc_pointLoad", str(e))
 
     # ---- R9.6 pressure
@@ -177,7 +177,7 @@ def run(ctx):
         p = Poly.var("p")
         try:
             I.call_function(fQ, [Opaque("pt"), Opaque("nodes"), p], self_obj=obj)
-        except (XRaise, Uninterpretable) as e:
+        except XRaise as e:
             r6.fail(fQ.qualname, f"dim{dim}", fQ.file, fQ.lineno, "__Bc_pressureload", str(e))
             continue
         ok = cap.get("dim") == dim - 1 and list(cap.get("unknowns") or []) == ["x", "y", "z"][:dim] and len(cap.get("values") or []) == dim
